@@ -10,10 +10,12 @@ Section MoreReplay.
   Variable St : Type.
   Variable apply : St -> list op -> option St.
   Variable root : St -> N.
+  Variable lc : bool.
+  Variable wl : N.
   Variable u0 : N.
 
-  Notation run := (run H St apply root u0).
-  Notation advance_one := (advance_one H St apply root u0).
+  Notation run := (run H St apply root lc wl u0).
+  Notation advance_one := (advance_one H St apply root lc wl u0).
   Notation artifacts := (artifacts H).
 
   Lemma run_snoc_root es e t w r : run (es ++ [e]) t w = inr r -> root (rs_state r) = e_root e.
@@ -21,7 +23,7 @@ Section MoreReplay.
     rewrite run_app. destruct (run es t w) as [x|w1]; [discriminate|]. cbn.
     destruct (advance_one (t + lenN es) e w1) as [x|w2] eqn:A; [discriminate|].
     intros E; injection E as <-.
-    destruct (advance_one_ok _ _ _ _ _ _ _ _ _ A) as (p & s & a & _ & _ & _ & Er & _ & _ & ->). exact Er.
+    destruct (advance_one_ok _ _ _ _ _ _ _ _ _ _ _ A) as (p & s & a & _ & _ & _ & Er & _ & _ & ->). exact Er.
   Qed.
 
   Lemma firstn_snoc {A} (l : list A) k e : nth_error l k = Some e -> firstn (S k) l = firstn k l ++ [e].
@@ -43,7 +45,7 @@ Section MoreReplay.
       destruct (artifacts e p) as [x|a'] eqn:Ar; [discriminate|].
       apply andb_prop in M. destruct M as [Ma Mr]. apply art_eqb_sound in Ma. subst a'.
       cbn in R. destruct (advance_one t e w) as [x|w1] eqn:A; [discriminate|].
-      destruct (advance_one_ok _ _ _ _ _ _ _ _ _ A) as (p0 & s & a0 & Ep0 & _ & _ & _ & _ & Ar0 & ->).
+      destruct (advance_one_ok _ _ _ _ _ _ _ _ _ _ _ A) as (p0 & s & a0 & Ep0 & _ & _ & _ & _ & Ar0 & ->).
       rewrite Ep in Ep0. injection Ep0 as <-. rewrite Ar in Ar0. injection Ar0 as <-.
       rewrite (IH _ _ _ _ Mr R). cbn [rs_hist]. rewrite <- app_assoc. reflexivity.
   Qed.
@@ -52,7 +54,7 @@ Section MoreReplay.
   Theorem checkpoint_validated_proof h cp base bw r :
     h_u0 h = u0 ->
     validate_checkpoint H St root art_eqb h cp = None ->
-    replay_at H St apply root h base bw (cp_tick cp) = inr r ->
+    replay_at H St apply root lc wl h base bw (cp_tick cp) = inr r ->
     root (rs_state (cp_state cp)) = root (rs_state r) /\ rs_hist (cp_state cp) = rs_hist r.
   Proof.
     intros Hu V R. unfold validate_checkpoint in V.
@@ -124,7 +126,7 @@ Section MoreReplay.
       destruct (advance_one (t' + lenN (es' ++ [y])) e' w1') as [?|w2'] eqn:A'; [discriminate|].
       apply Forall_app in W. destruct W as [W1 We]. apply Forall_app in W'. destruct W' as [W1' We'].
       inversion We as [|? ? We1 _]; subst. inversion We' as [|? ? We1' _]; subst.
-      destruct (step_binds _ _ _ _ _ _ _ _ _ _ _ _ _ We1 We1' A A' Ec) as [[Hce _]|C]; [|right; exact C].
+      destruct (step_binds _ _ _ _ _ _ _ _ _ _ _ _ _ _ _ We1 We1' A A' Ec) as [[Hce _]|C]; [|right; exact C].
       destruct Hce as (Hpar & _).
       pose proof (L _ _ _ (nth_snoc2_a es x e) (nth_snoc2_b es x e)) as P.
       pose proof (L' _ _ _ (nth_snoc2_a es' y e') (nth_snoc2_b es' y e')) as P'.
@@ -133,7 +135,141 @@ Section MoreReplay.
         as [Hm|C]; [|right; exact C].
       left. rewrite (map_app _ (es ++ [x])), (map_app _ (es' ++ [y])), Hm. cbn. congruence.
   Qed.
+
+  (* -------------------------------------------------------------------------------------------- with the check on *)
+  Lemma coord_ok t e w :
+    lc = true -> coord_link_check St lc wl t e w = None ->
+    e_wl e = wl /\ e_tick e = t /\
+    match last_commit St w with Some c => In c (parent_ids e) | None => True end.
+  Proof.
+    intros -> C. unfold coord_link_check in C. cbn [negb] in C.
+    destruct (e_wl e =? wl) eqn:E1; cbn [negb] in C; [|discriminate].
+    destruct (e_tick e =? t) eqn:E2; cbn [negb] in C; [|discriminate].
+    apply N.eqb_eq in E1, E2. repeat split; auto.
+    destruct (last_commit St w) as [c|]; auto.
+    destruct (existsb (N.eqb c) (parent_ids e)) eqn:Ex; [|discriminate].
+    apply existsb_exists in Ex. destruct Ex as (x & Hin & Hx). apply N.eqb_eq in Hx. subst x. exact Hin.
+  Qed.
+
+  Lemma last_commit_after t e w w' : advance_one t e w = inr w' -> last_commit St w' = Some (e_commit e).
+  Proof.
+    intros A. destruct (advance_one_ok _ _ _ _ _ _ _ _ _ _ _ A) as (p & s & a & _ & _ & _ & _ & _ & Ar & ->).
+    unfold last_commit. cbn [rs_hist]. rewrite rev_app_distr. cbn.
+    destruct (artifacts_ok _ _ _ _ Ar) as (_ & _ & -> & _). reflexivity.
+  Qed.
+
+  (* every position of a history that verifies carries its own coordinate *)
+  Lemma run_coords es : forall t w r, lc = true -> run es t w = inr r ->
+    forall k e, nth_error es k = Some e -> e_wl e = wl /\ e_tick e = t + N.of_nat k.
+  Proof.
+    induction es as [|x es IH]; intros t w r Hl R [|k] e Nx; cbn in Nx; try discriminate.
+    - injection Nx as <-. cbn in R. destruct (advance_one t x w) as [?|w1] eqn:A; [discriminate|].
+      destruct (coord_ok _ _ _ Hl (advance_one_coord _ _ _ _ _ _ _ _ _ _ _ A)) as (E1 & E2 & _).
+      split; auto. rewrite E2. lia.
+    - cbn in R. destruct (advance_one t x w) as [?|w1] eqn:A; [discriminate|].
+      destruct (IH _ _ _ Hl R k e Nx) as (E1 & E2). split; auto. rewrite E2. lia.
+  Qed.
+
+  Lemma pointwise_prefix {A} (l' : list A) : forall l,
+    (forall i y, nth_error l' i = Some y -> nth_error l i = Some y) -> l' = firstn (length l') l.
+  Proof.
+    induction l' as [|x l' IH]; intros l Hp; cbn; auto.
+    destruct l as [|y l]; [specialize (Hp 0%nat x eq_refl); discriminate|].
+    pose proof (Hp 0%nat x eq_refl) as H0. cbn in H0. injection H0 as ->. f_equal.
+    apply IH. intros i z Nz. apply (Hp (S i) z Nz).
+  Qed.
+
+  Lemma structural_pointwise es es' t0 : forall k w r',
+    lc = true ->
+    (forall y, In y es' -> e_wl y = wl -> exists j, nth_error es j = Some y /\ e_tick y = t0 + N.of_nat j) ->
+    run es' (t0 + N.of_nat k) w = inr r' ->
+    forall i y, nth_error es' i = Some y -> nth_error es (k + i) = Some y.
+  Proof.
+    induction es' as [|x xs IH]; intros k w r' Hl Hsrc R i y Ny; [destruct i; discriminate|].
+    cbn in R. destruct (advance_one (t0 + N.of_nat k) x w) as [?|w1] eqn:A; [discriminate|].
+    destruct (coord_ok _ _ _ Hl (advance_one_coord _ _ _ _ _ _ _ _ _ _ _ A)) as (E1 & E2 & _).
+    destruct (Hsrc x (or_introl eq_refl) E1) as (j & Nj & Tj).
+    assert (j = k) by lia. subst j.
+    destruct i as [|i]; cbn in Ny.
+    - injection Ny as <-. rewrite Nat.add_0_r. exact Nj.
+    - replace (k + S i)%nat with (S k + i)%nat by lia.
+      apply (IH (S k) w1 r' Hl); auto.
+      + intros z Hz. apply Hsrc. right. exact Hz.
+      + replace (t0 + N.of_nat (S k)) with (t0 + N.of_nat k + 1) by lia. exact R.
+  Qed.
+
+  (* Structural tamper (swap / duplication / removal / repetition / as-is transplant from another worldline, in any
+     combination): if the edited history still passes replay it is a PREFIX of the original one - i.e. the only
+     undetected structural edit is truncation, whose result is the original result for that tick. *)
+  Theorem replay_structural_tamper_proof es es' t w w' r r' :
+    lc = true ->
+    run es t w = inr r ->
+    (forall y, In y es' -> In y es \/ e_wl y <> wl) ->
+    run es' t w' = inr r' ->
+    es' = firstn (length es') es.
+  Proof.
+    intros Hl R Hsrc R'. apply pointwise_prefix. intros i y Ny.
+    apply (structural_pointwise es es' t 0 w' r' Hl); auto.
+    - intros z Hz Ez. destruct (Hsrc z Hz) as [Hin|Hn]; [|congruence].
+      apply In_nth_error in Hin. destruct Hin as (j & Nj). exists j. split; auto.
+      apply (run_coords _ _ _ _ Hl R j z Nj).
+    - rewrite N.add_0_r. exact R'.
+  Qed.
+
+  (* a verified history of single-parent entries is linked *)
+  Lemma run_linked es : forall t w r,
+    lc = true -> run es t w = inr r -> (forall e, In e es -> (length (parent_ids e) <= 1)%nat) -> linked es.
+  Proof.
+    induction es as [|x es IH]; intros t w r Hl R Hs i e0 e1 N0 N1; [destruct i; discriminate|].
+    cbn in R. destruct (advance_one t x w) as [?|w1] eqn:A; [discriminate|].
+    destruct i as [|i]; cbn in N0, N1.
+    - injection N0 as <-. destruct es as [|y es]; [discriminate|]. cbn in N1. injection N1 as <-.
+      cbn in R. destruct (advance_one (t + 1) y w1) as [?|w2] eqn:A2; [discriminate|].
+      destruct (coord_ok _ _ _ Hl (advance_one_coord _ _ _ _ _ _ _ _ _ _ _ A2)) as (_ & _ & L).
+      rewrite (last_commit_after _ _ _ _ A) in L.
+      assert (Hlen : (length (parent_ids y) <= 1)%nat) by (apply Hs; right; left; reflexivity).
+      destruct (parent_ids y) as [|c [|c' rest]]; cbn in L, Hlen; [tauto| |lia].
+      destruct L as [->|[]]. reflexivity.
+    - apply (IH _ _ _ Hl R (fun e He => Hs e (or_intror He)) i e0 e1 N0 N1).
+  Qed.
+
+  (* With the check on, replay itself establishes the link, so ONE trusted tip commit id pins the whole commit-id
+     chain of any history of single-parent entries that verifies (and then, by replay_anchored, every committed
+     field of every entry and the state root). *)
+  Theorem replay_tip_anchored_proof es es' e e' t t' w w' r r' :
+    lc = true ->
+    length es = length es' ->
+    Forall (fun x => wf_entry x = true) (es ++ [e]) -> Forall (fun x => wf_entry x = true) (es' ++ [e']) ->
+    (forall x, In x (es ++ [e]) -> (length (parent_ids x) <= 1)%nat) ->
+    (forall x, In x (es' ++ [e']) -> (length (parent_ids x) <= 1)%nat) ->
+    run (es ++ [e]) t w = inr r -> run (es' ++ [e']) t' w' = inr r' ->
+    e_commit e = e_commit e' ->
+    map e_commit (es ++ [e]) = map e_commit (es' ++ [e']) \/ Collision H.
+  Proof.
+    intros Hl Len W W' S S' R R' Ec.
+    eapply linked_tip_binds_proof; eauto; eapply run_linked; eauto.
+  Qed.
 End MoreReplay.
+
+(* the two theorems that need the check, specialised to lc = true (the code as it is) *)
+Lemma replay_structural_tamper_on (H : bytes -> N) (St : Type) (apply : St -> list op -> option St)
+  (root : St -> N) (wl u0 : N) es es' t w w' r r' :
+  run H St apply root true wl u0 es t w = inr r ->
+  (forall y, In y es' -> In y es \/ e_wl y <> wl) ->
+  run H St apply root true wl u0 es' t w' = inr r' ->
+  es' = firstn (length es') es.
+Proof. apply replay_structural_tamper_proof. reflexivity. Qed.
+
+Lemma replay_tip_anchored_on (H : bytes -> N) (St : Type) (apply : St -> list op -> option St)
+  (root : St -> N) (wl u0 : N) es es' e e' t t' w w' r r' :
+  length es = length es' ->
+  Forall (fun x => wf_entry x = true) (es ++ [e]) -> Forall (fun x => wf_entry x = true) (es' ++ [e']) ->
+  (forall x, In x (es ++ [e]) -> (length (parent_ids x) <= 1)%nat) ->
+  (forall x, In x (es' ++ [e']) -> (length (parent_ids x) <= 1)%nat) ->
+  run H St apply root true wl u0 (es ++ [e]) t w = inr r -> run H St apply root true wl u0 (es' ++ [e']) t' w' = inr r' ->
+  e_commit e = e_commit e' ->
+  map e_commit (es ++ [e]) = map e_commit (es' ++ [e']) \/ Collision H.
+Proof. apply replay_tip_anchored_proof. reflexivity. Qed.
 
 (* ------------------------------------------------------------------------------------------------ witnesses *)
 (* a tiny concrete instance of the parameters: the state is a number, a patch `[DeleteWarpInstance v]` sets it to v
@@ -165,11 +301,11 @@ Section Witness.
 
   Lemma wadvance t tick v plan parents (w : rstate N) :
     tick < u64_max ->
-    exists a, advance_one H N wapply wroot 0 t (wentry tick v plan parents) w =
+    exists a, advance_one H N wapply wroot false 1 0 t (wentry tick v plan parents) w =
               inr {| rs_state := v; rs_hist := rs_hist w ++ [a] |} /\
               a_commit a = e_commit (wentry tick v plan parents) /\ a_plan a = plan.
   Proof.
-    intros Lt. unfold advance_one. cbn [e_patch wentry p_warp wpatch p_ops wapply wroot e_root].
+    intros Lt. unfold advance_one, coord_link_check. cbn [negb e_patch wentry p_warp wpatch p_ops wapply wroot e_root].
     rewrite !N.eqb_refl. cbn [negb].
     unfold artifacts. rewrite wbody_replay. cbn [e_pdig p_digest e_tick e_receipt wentry wpatch]. rewrite !N.eqb_refl. cbn [negb].
     destruct (u64_max <=? tick) eqn:Le; [apply N.leb_le in Le; lia|].
@@ -184,11 +320,11 @@ Section Witness.
     exists (h : list entry) (dup : entry),
       nth_error h 1 = Some dup /\
       exists r r1 r1' r',
-        run H N wapply wroot 0 h 0 wbase = inr r /\                                     (* the original verifies *)
-        run H N wapply wroot 0 (firstn 1 h) 0 wbase = inr r1 /\                          (* original, tick 1 *)
-        run H N wapply wroot 0 (firstn 1 (replace_nth 0 dup h)) 0 wbase = inr r1' /\     (* entry 0 := entry 1 *)
+        run H N wapply wroot false 1 0 h 0 wbase = inr r /\                                     (* the original verifies *)
+        run H N wapply wroot false 1 0 (firstn 1 h) 0 wbase = inr r1 /\                          (* original, tick 1 *)
+        run H N wapply wroot false 1 0 (firstn 1 (replace_nth 0 dup h)) 0 wbase = inr r1' /\     (* entry 0 := entry 1 *)
         rs_state r1 <> rs_state r1' /\ rs_tick N r1 = rs_tick N r1' /\
-        run H N wapply wroot 0 (replace_nth 0 dup h) 0 wbase = inr r'.                  (* ... and all of it *)
+        run H N wapply wroot false 1 0 (replace_nth 0 dup h) 0 wbase = inr r'.                  (* ... and all of it *)
   Proof.
     assert (L0 : 0 < u64_max) by reflexivity. assert (L1 : 1 < u64_max) by reflexivity.
     exists [we0; we1], we1. split; [reflexivity|].
@@ -208,7 +344,7 @@ Section Witness.
      docs/spec/merkle-commit.md decision 3) - the core result is unaffected *)
   Theorem diagnostics_unbound_refuted_proof :
     exists e e', agree_except Fpatch e e' /\
-      exists r r', run H N wapply wroot 0 [e] 0 wbase = inr r /\ run H N wapply wroot 0 [e'] 0 wbase = inr r' /\
+      exists r r', run H N wapply wroot false 1 0 [e] 0 wbase = inr r /\ run H N wapply wroot false 1 0 [e'] 0 wbase = inr r' /\
                    core_result N wroot r = core_result N wroot r' /\ map a_plan (rs_hist r) <> map a_plan (rs_hist r').
   Proof.
     assert (L0 : 0 < u64_max) by reflexivity.
